@@ -32,19 +32,36 @@ def schema_model():
                           M.Key("bs", "string-list", default="x y"),
                           M.Sect("*", "leaf", attribute="leaves", multi=True)))
     derived = M.SType("dbox", (M.Key("extra", default="e"),), extends="box", keytype="identifier")
+    # a type with keyed wildcard defaults that NOTHING in the schema itself derives from (a component does, at load
+    # time, under another key type)
+    wbox = M.SType("wbox", (M.Key("+", attribute="wopts", default=(("Da", "1"), ("db", "2"))),))
     return M.Schema(
-        types=(M.AType("a"), leaf, impl, box, derived),
+        types=(M.AType("a"), leaf, impl, box, derived, wbox),
         items=(M.Key("k1", SINT, default="7"), M.MultiKey("m1", defaults=("dv", "dw")),
                M.MultiKey("+", "string-list", attribute="wild", defaults=(("Da", "x y"), ("da", "y"), ("db", "z"))),
                M.Key("req", required=True),
                M.Sect("*", "box", attribute="boxes", multi=True),
                M.Sect("*", "dbox", attribute="dboxes", multi=True),
+               M.Sect("*", "wbox", attribute="wboxes", multi=True),
                M.Sect("*", "a", attribute="impls", multi=True),
-               M.Sect("n1", "leaf")))
+               M.Sect("n1", "leaf"),
+               # a catch-all slot of the same type AFTER the named one: which slot a section lands in depends on
+               # its name only, never on what earlier sections / loads did
+               M.Sect("*", "leaf", attribute="leaves", multi=True)))
+
+
+def make_packages(P):
+    """C12's packages plus a component whose type EXTENDS a section type of the application schema under another
+    key type: deriving it at load time must not touch the application schema's own (shared) infos."""
+    plist = list(c12.make_packages(P))
+    plist.append(P.add_component("px", [M.SType("pxbox", (M.Key("xk", default="x"),), extends="wbox",
+                                                keytype="identifier")]))
+    return plist
 
 
 def operations(plist):
     pa, pb, pc = plist[:3]
+    px = plist[-1]
     ops = [
         ("valid-defaults", "req r\n", ()),
         ("valid-everything", "req r\nk1 9\nm1 a\nm1 b\nzz 1\nZZ 2\n<box b1>\n  xx 5\n  bm 4\n  <leaf/>\n  <leaf l2>\n    lm q\n  </leaf>\n</box>\n"
@@ -58,6 +75,10 @@ def operations(plist):
         ("fault-top-level-finish", "k1 1\n", ()),
         ("import-and-use", "req r\n%%import %s\n<pa1/>\n" % pa, ()),
         ("import-other-definition", "req r\n%%import %s\n<pa1/>\n" % pc, ()),
+        ("leaf-into-catch-all", "req r\n<leaf other>\n  lk w\n</leaf>\n<leaf/>\n", ()),
+        ("leaf-into-named-slot", "req r\n<leaf n1>\n  lk v\n</leaf>\n<leaf other/>\n", ()),
+        ("import-extender-of-own-type", "req r\n%%import %s\n<wbox/>\n" % px, ()),
+        ("wildcard-defaults-of-that-type", "req r\n<wbox/>\n", ()),
         ("use-without-import", "req r\n<pa1/>\n", ()),
         # a second, different component: what one load imported must not be there for the next
         ("import-second-and-use", "req r\n%%import %s\n<pb1/>\n" % pb, ()),
@@ -110,7 +131,7 @@ def outcome(sch, text, overrides):
     return ("I", core.exc_desc(r[1])), None
 
 
-IMPORT_OPS = ("import-and-use", "import-other-definition", "import-second-and-use", "import-second-use-first",
+IMPORT_OPS = ("import-extender-of-own-type", "import-and-use", "import-other-definition", "import-second-and-use", "import-second-use-first",
               "import-both-and-use")
 
 
@@ -163,7 +184,7 @@ def shard(arg, acc):
     kind, prefix, depth, tier = arg
     P = pkgs.Packages()
     try:
-        plist = c12.make_packages(P)
+        plist = make_packages(P)
         S = schema_model()
         xml = M.render(S)
         ops = operations(plist)
@@ -178,6 +199,7 @@ def shard(arg, acc):
                 if text is None:
                     continue
                 want = "A" if name.startswith(("valid", "overrides-valid", "import-and-use", "import-second-and-use",
+                                               "leaf-into", "import-extender-of-own-type", "wildcard-defaults-of-that-type",
                                                "import-both-and-use")) else "R"
                 if fresh[i][0] != want:
                     raise core.HarnessError("operation %s: fresh outcome %r, designed to be %s" % (name, fresh[i], want))
@@ -238,7 +260,7 @@ def _strip_ids(d):
 
 def run(tier):
     depth = 4 if tier == "quick" else 5
-    nops = 18
+    nops = 22
     run = core.Run(
         "C13", tier, "model_checking",
         rule="%d operations on one schema object (2 valid loads, 7 invalid loads with the fault at the syntax / "
@@ -249,13 +271,18 @@ def run(tier):
              "schema's structural digest; then a breadth-first search to depth 8 with state = digest(schema) "
              "(object identities normalised).  Non-trivial = sequence with a failed load or a mutation followed by "
              "another step." % (nops, depth),
-        bounds={"explicit_depth": depth, "bfs_depth": 8, "operations": nops},
+        bounds={"explicit_depth": depth, "bfs_depth": 8, "operations": nops,
+                "depth_5_only_below_prefixes_of": "12 of the 22 operations (thorough tier)"},
         assumptions=["completeness of vz.harness.load.schema_digest (guarded by the differential oracle of the explicit "
                      "sequences)", "schema: defaults of every kind, derived type with another key type, abstract slot, "
                      "rejecting section datatype, datatypes loaded by dotted name, defaults whose converted value is a "
                      "mutable list (string-list) in single, multi and wildcard keys"])
     shards = [("self-test", (), 0, tier)]
-    shards += [("explicit", (i, j), depth, tier) for i in range(nops) for j in range(nops)]
+    # depth 5 (thorough) only below prefixes drawn from the operations that leave something behind or depend on
+    # what was left (imports, failed loads, mutation, catch-all vs named slot); other prefixes go to depth 4
+    core = (0, 2, 5, 7, 9, 11, 12, 13, 14, 17, 19, 21)
+    shards += [("explicit", (i, j), depth if (depth <= 4 or (i in core and j in core)) else 4, tier)
+               for i in range(nops) for j in range(nops)]
     shards += [("explicit", (i,), 1, tier) for i in range(nops)]
     shards += [("bfs", (), 8, tier)]
     core.pmap(shard, shards, run.acc, shard_budget=3000.0)
@@ -270,7 +297,7 @@ def replay(body):
     P = pkgs.Packages()
     rc = 0
     try:
-        plist = c12.make_packages(P)
+        plist = make_packages(P)
         ops = operations(plist)
         byname = {o[0]: i for i, o in enumerate(ops)}
         seq = tuple(byname[n] for n in case["sequence"])
